@@ -159,13 +159,16 @@ def _order_matches(order, tot, tied, perm):
     ell = [k for k in syms if k not in "".join(tot)]
     OSet.priority = {s: i for i, s in enumerate(perm)}
     try:
-        got = sorted(syms, key=lambda k: (order[k], OSet._key(k)))
+        if STRICT_ORDER:  # repaired variant: ties broken by the symbol itself
+            got = sorted(syms, key=lambda k: (order[k], k.isupper(), k))
+        else:
+            got = sorted(syms, key=lambda k: (order[k], OSet._key(k)))
     finally:
         OSet.priority = {}
     got = ["." if k in ell else k for k in got]
     vals = sorted(order[k] for k in syms)
     has_tie = any(a == b for a, b in zip(vals, vals[1:]))
-    return got == list(tot) and has_tie == bool(tied)
+    return got == list(tot) and (STRICT_ORDER or has_tie == bool(tied))
 
 
 def run_einsum(ctx):
@@ -350,7 +353,7 @@ def _want_nll(opt, quick):
     if opt["nll"] != "default":
         return True
     if opt["lazy_call"]:
-        return not (quick and opt["use_tf_function"])
+        return not quick  # quick: eval() and the tf.data batches of the density only
     return not quick and (opt["amp_model"], opt["preprocessor"]) != ("default", "default") and not opt["use_tf_function"]
 
 
@@ -371,13 +374,14 @@ def run_strategies(ctx, only=None):
     if only is not None:
         sel = [x for x in rows if S.opt_id(x["opt"]) in only]
     n_data, n_phsp = (64, 96) if quick else (160, 256)
+    batch = 32 if quick else 50  # thorough: unequal last batch
     files = S.write_events(ctx.work, n_data, n_phsp, ctx.seed)
     refs = {}
 
     def ref_for(opt, baseline):
         k = (baseline, opt["float_shape"])
         if k not in refs:
-            refs[k] = S.run_strategy(_baseline_of(opt, baseline), files, seed=ctx.seed, batch=50, lazy_batch=50)
+            refs[k] = S.run_strategy(_baseline_of(opt, baseline), files, seed=ctx.seed, batch=batch, lazy_batch=batch)
             # the two calls of the plain eager default agree with each other
             for a, b in refs[k]["density"]:
                 if S.rel_err(b, a) > 1e-12:
@@ -398,7 +402,7 @@ def run_strategies(ctx, only=None):
             n_out += 1
             try:
                 ref = ref_for(opt, x["baseline"])
-                obs = S.run_strategy(opt, files, points=ref["points"], seed=ctx.seed, batch=50, lazy_batch=50, want_nll=not opt["jit_compile"])
+                obs = S.run_strategy(opt, files, points=ref["points"], seed=ctx.seed, batch=batch, lazy_batch=batch, want_nll=not opt["jit_compile"])
                 bad, w = S.compare(obs, ref, tol)
                 if bad:
                     n_out_diff += 1
@@ -426,7 +430,7 @@ def run_strategies(ctx, only=None):
         except Exception as e:
             raise tlc.MachineryError("baseline strategy failed: %r" % e)
         try:
-            obs = S.run_strategy(opt, files, points=ref["points"], seed=ctx.seed, batch=50, lazy_batch=50,
+            obs = S.run_strategy(opt, files, points=ref["points"], seed=ctx.seed, batch=batch, lazy_batch=batch,
                                  want_nll=_want_nll(opt, quick))
         except Exception as e:
             ctx.violation(key + ":raise", {"options": opt, "error": "%s: %s" % (type(e).__name__, str(e)[:300])})
